@@ -347,6 +347,7 @@ def compile_item(it):
         it.compiled = {}
     return it.compiled
 
+_ZST_LOCALS = {}
 ZST_DEFS = None     # set by Machine: prog.closure_zst
 def _annotate(it, bb, raw):
     if ZST_DEFS is None: return raw
@@ -805,6 +806,10 @@ class Machine:
         self.encoded.add(key)
         fr = Frame(); fr.item = it; fr.locals = {}; fr.generics = generics
         for a, v in zip(it.args, args): fr.locals[a] = Cell(v)
+        # a non-capturing closure bound to a variable is zero-sized: MIR declares the local and never assigns it
+        zl = _ZST_LOCALS.get(id(it))
+        if zl is None: zl = _ZST_LOCALS[id(it)] = [(l, t) for l, t in it.locals.items() if t.startswith('{closure@') and l not in it.args]
+        for l, t in zl: fr.locals[l] = Cell(self.zst(fr, t))
         bb = 'bb0'
         while True:
             stmts, term = block(it, bb)
